@@ -253,6 +253,12 @@ func (p *Path) callSSA(th *Thread, caller *Frame, fn *ssa.Function, args []Value
 	}
 	if f, ok := intrinsics[name]; ok {
 		p.intr[name]++
+		if p.e.verbose || p.e.debugSites {
+			p.curSite = "intrinsic " + name
+			if caller != nil {
+				p.curSite += " <- " + caller.fn.Name()
+			}
+		}
 		return f(p, th, caller, args)
 	}
 	if fn.Origin() != nil {
@@ -506,6 +512,10 @@ func (p *Path) visitInstr(fr *Frame, instr ssa.Instruction) continuation {
 		cond := fr.get(instr.Cond).(*Term)
 		succ := 1
 		if !cond.IsConst() {
+			if p.e.verbose || p.e.debugSites {
+				pos := p.e.prog.Fset.Position(instr.Cond.Pos())
+				p.curSite = fmt.Sprintf("%s %s:%d", fr.fn.Name(), shortFile(pos.Filename), pos.Line)
+			}
 			k := loopKey{fr, instr}
 			p.loopCnt[k]++
 			if p.loopCnt[k] > p.unwind {
